@@ -469,6 +469,8 @@ struct Outcome {
     stmt_classes: BTreeSet<String>,
     noidx_used_index: u64,
     nonempty_index_answers: u64,
+    /// diagnostics only (never part of a verdict): microseconds in setup / history / probes
+    t_us: [u64; 3],
 }
 
 struct Group {
@@ -500,6 +502,27 @@ fn copy_dir(src: &Path, dst: &Path) -> std::io::Result<()> {
     Ok(())
 }
 
+/// one open twin database in its own directory (closed, then removed, on drop)
+struct Twin {
+    db: Option<turdb::Database>,
+    dir: PathBuf,
+}
+impl Twin {
+    fn db(&self) -> &turdb::Database {
+        self.db.as_ref().expect("open")
+    }
+    fn exec(&self, sql: &str) -> Res {
+        exec(self.db(), sql)
+    }
+}
+impl Drop for Twin {
+    fn drop(&mut self) {
+        let db = self.db.take();
+        let _ = vcore::catch(move || drop(db));
+        let _ = std::fs::remove_dir_all(&self.dir);
+    }
+}
+
 struct Env {
     scratch: PathBuf,
     /// templates of big preloads: (variant, twin) -> directory of a cleanly closed database
@@ -519,13 +542,15 @@ impl Env {
         s.extend(preload_sql(p, v.flavor));
         s
     }
-    fn fresh(&mut self, v: &Variant, twin: char, p: Preload) -> Result<TestDb, String> {
+    /// `direct` = build the database by executing the setup statements in this session (no reopen);
+    /// otherwise copy a cleanly closed template directory of the same setup and open it.
+    fn fresh(&mut self, v: &Variant, twin: char, p: Preload, direct: bool) -> Result<Twin, String> {
         self.seq += 1;
         let name = format!("db{}_{}", twin, self.seq % 4);
-        if p == Preload::P650 {
-            let key = (v.name.to_string(), twin);
+        if !direct {
+            let key = (format!("{}/{}", v.name, p.name()), twin);
             if !self.templates.contains_key(&key) {
-                let tname = format!("tpl_{}_{}", v.name, twin);
+                let tname = format!("tpl_{}_{}_{}", v.name, p.name(), twin);
                 let mut t = TestDb::create(&self.scratch, &tname)?;
                 for s in Env::setup_stmts(v, twin, p) {
                     let r = t.exec(&s);
@@ -541,21 +566,24 @@ impl Env {
                 self.templates.insert(key.clone(), dir);
             }
             let tpl = self.templates[&key].clone();
-            let mut t = TestDb::create(&self.scratch, &name)?;
-            t.db = None;
-            let _ = std::fs::remove_dir_all(&t.dir);
-            copy_dir(&tpl, &t.dir).map_err(|e| format!("copy template: {e}"))?;
-            t.reopen().map_err(|e| format!("open template copy: {e}"))?;
-            Ok(t)
+            let dir = self.scratch.join(&name);
+            let _ = std::fs::remove_dir_all(&dir);
+            copy_dir(&tpl, &dir).map_err(|e| format!("copy template: {e}"))?;
+            match vcore::catch(|| turdb::Database::open(&dir).map_err(|e| format!("{e:#}"))) {
+                Ok(Ok(db)) => Ok(Twin { db: Some(db), dir }),
+                Ok(Err(e)) => Err(format!("open template copy: {e}")),
+                Err(p) => Err(format!("open template copy: PANIC {p}")),
+            }
         } else {
-            let t = TestDb::create(&self.scratch, &name)?;
+            let mut t = TestDb::create(&self.scratch, &name)?;
             for s in Env::setup_stmts(v, twin, p) {
                 let r = t.exec(&s);
                 if !r.ok() {
                     return Err(format!("setup `{}`: {}", vcore::util::clip(&s, 80), r.show()));
                 }
             }
-            Ok(t)
+            t.keep();
+            Ok(Twin { db: t.db.take(), dir: t.dir.clone() })
         }
     }
 }
@@ -606,17 +634,31 @@ fn compare(a: &Res, b: &Res) -> Option<(&'static str, String, String)> {
     }
 }
 
+static TIMES: [std::sync::atomic::AtomicU64; 5] = [std::sync::atomic::AtomicU64::new(0), std::sync::atomic::AtomicU64::new(0), std::sync::atomic::AtomicU64::new(0), std::sync::atomic::AtomicU64::new(0), std::sync::atomic::AtomicU64::new(0)];
 fn run_history(env: &mut Env, g: &mut Group, h: &[Op]) -> Outcome {
+    use std::sync::atomic::Ordering::Relaxed;
+    let t0 = std::time::Instant::now();
+    let o = run_history_inner(env, g, h);
+    TIMES[0].fetch_add(t0.elapsed().as_micros() as u64, Relaxed);
+    TIMES[1].fetch_add(o.t_us[0], Relaxed);
+    TIMES[2].fetch_add(o.t_us[1], Relaxed);
+    TIMES[3].fetch_add(o.t_us[2], Relaxed);
+    TIMES[4].fetch_add(1, Relaxed);
+    o
+}
+fn run_history_inner(env: &mut Env, g: &mut Group, h: &[Op]) -> Outcome {
     let mut out = Outcome::default();
+    let t_start = std::time::Instant::now();
     let v = g.v;
-    let a = match env.fresh(v, 'A', g.preload) {
+    let direct = g.preload == Preload::None && h.len() <= 2;
+    let a = match env.fresh(v, 'A', g.preload, direct) {
         Ok(t) => t,
         Err(e) => {
             out.setup_error = Some(format!("twin A: {e}"));
             return out;
         }
     };
-    let b = match env.fresh(v, 'B', g.preload) {
+    let b = match env.fresh(v, 'B', g.preload, direct) {
         Ok(t) => t,
         Err(e) => {
             out.setup_error = Some(format!("twin B: {e}"));
@@ -627,6 +669,8 @@ fn run_history(env: &mut Env, g: &mut Group, h: &[Op]) -> Outcome {
         Flavor::Pk => "id",
         _ => "a",
     };
+    out.t_us[0] = t_start.elapsed().as_micros() as u64;
+    let t_hist = std::time::Instant::now();
     // ---- history -------------------------------------------------------
     for &op in h {
         for s in render(op, v.flavor) {
@@ -660,6 +704,8 @@ fn run_history(env: &mut Env, g: &mut Group, h: &[Op]) -> Outcome {
             }
         }
     }
+    out.t_us[1] = t_hist.elapsed().as_micros() as u64;
+    let t_probe = std::time::Instant::now();
     // ---- late DDL on twin A ---------------------------------------------
     for s in v.late_a {
         let r = a.exec(s);
@@ -723,6 +769,7 @@ fn run_history(env: &mut Env, g: &mut Group, h: &[Op]) -> Outcome {
             }
         }
     }
+    out.t_us[2] = t_probe.elapsed().as_micros() as u64;
     out
 }
 
@@ -983,6 +1030,11 @@ impl C10 {
             }
         }
         let _ = ex.ctx;
+        if ctx.opt("timing").is_some() {
+            use std::sync::atomic::Ordering::Relaxed;
+            let n = TIMES[4].load(Relaxed).max(1);
+            rep.note(&format!("timing(worker {}): runs={} avg_total_us={} setup={} history={} probes={}", ctx.worker, n, TIMES[0].load(Relaxed) / n, TIMES[1].load(Relaxed) / n, TIMES[2].load(Relaxed) / n, TIMES[3].load(Relaxed) / n));
+        }
     }
 
     #[allow(clippy::too_many_arguments)]
@@ -1141,7 +1193,49 @@ fn debug_sql(script: &str) {
     let _ = std::fs::remove_dir_all(&base);
 }
 
+fn bench() {
+    vcore::quiet_panics();
+    let base = std::path::PathBuf::from(format!("/dev/shm/turdb_verif/c10bench_{}", std::process::id()));
+    let v = variant("sec").unwrap();
+    let mut env = Env::new(&base, false);
+    let n = 50;
+    let t0 = std::time::Instant::now();
+    for _ in 0..n {
+        let t = TestDb::create(&base, "x").unwrap();
+        drop(t);
+    }
+    println!("create+drop: {} us", t0.elapsed().as_micros() / n);
+    let t0 = std::time::Instant::now();
+    let mut keep = Vec::new();
+    for _ in 0..n {
+        let t = env.fresh(v, 'A', Preload::None, true).unwrap();
+        keep.push(t);
+        keep.clear();
+    }
+    println!("fresh(sec,A,none)+drop: {} us", t0.elapsed().as_micros() / n);
+    let t0 = std::time::Instant::now();
+    for _ in 0..n {
+        let t = env.fresh(v, 'A', Preload::None, false).unwrap();
+        drop(t);
+    }
+    println!("fresh(sec,A,p650 template copy)+drop: {} us", t0.elapsed().as_micros() / n);
+    let t = env.fresh(v, 'A', Preload::None, true).unwrap();
+    for s in ["CREATE TABLE x1(a INT)", "CREATE INDEX ix1 ON x1(a)", "INSERT INTO x1 VALUES (1)", "SELECT * FROM x1", "DROP INDEX ix1"] {
+        let t0 = std::time::Instant::now();
+        let r = t.exec(s);
+        println!("{s}: {} us {}", t0.elapsed().as_micros(), r.class());
+    }
+    let t0 = std::time::Instant::now();
+    drop(t);
+    println!("drop: {} us", t0.elapsed().as_micros());
+    let _ = std::fs::remove_dir_all(&base);
+}
+
 fn main() {
+    if std::env::var("C10_BENCH").is_ok() {
+        bench();
+        return;
+    }
     if let Ok(s) = std::env::var("C10_SQL") {
         debug_sql(&s);
         return;
